@@ -125,11 +125,11 @@ pub fn def_c15() -> PropDef {
     PropDef {
         id: "C15",
         run: |ctx| {
-            let cases = ctx.tier.pick(8_000, 200_000);
+            let cases = ctx.tier.pick(25_000, 300_000);
             let p = GenParams { n: (3, 7), b: (2, 4), nd: (1, 3), embed: Some(false), allow_irrelevance: true, allow_potential: false };
             let strat = (solve_case_strategy(p, ConfigGen { max_width: 3, ..Default::default() }), prop_oneof![4 => Just(None), 1 => (1usize..=3).prop_map(Some)]).prop_map(|(solve, threads)| C15TableCase { solve, threads });
             ctx.pt_run("table-irrelevance", cases, strat, |c| serde_json::to_value(c).unwrap(), |c, obs| eval_c15_table(&c.solve, c.threads, obs));
-            let cases = ctx.tier.pick(6_000, 150_000);
+            let cases = ctx.tier.pick(20_000, 200_000);
             let strat = fam_case_strategy(vec![1, 2], vec![DdKind::Pooled], true);
             ctx.pt_run("setpack-and-lcs", cases, strat, |c| serde_json::to_value(c).unwrap(), eval_c15_family);
         },
